@@ -604,11 +604,12 @@ def c29(tier, seed):
         rng = random.Random(seed)
         cases = gen.systematic_flat() + gen.systematic_corner() + gen_blocks.systematic_blocks()
         cases += gen.random_flat(rng, 30 if tier == "quick" else 400)
+        cases += gen.smgen_cases(rng, 40 if tier == "quick" else 500)
         cases += common.witness_cases("C29")
         cases = common.replay_cases() or cases
 
         def ops(c):
-            return [{"op": "synth", "strategy": "SMGen", "n": 2, "timeout": 25}, {"op": "synth", "strategy": "SMGen", "n": 1, "timeout": 25}]
+            return [{"op": "synth", "strategy": "SMGen", "n": 4, "timeout": 25}, {"op": "synth", "strategy": "SMGen", "n": 1, "timeout": 25}]
         supported = []
         outcomes = {}
         for batch in batches(cases, 250):
